@@ -20,9 +20,16 @@ TABLE_KINDS = ['boundary', 'spring', 'cload']
 VALUE_KINDS = ['fixtemp', 'cflux']
 COQ_HEAD = '\n'.join([
     'From Coq Require Import String List ZArith.', 'Import ListNotations.',
-    'From FV.C01 Require Import Str Dec.', 'From FV.C03 Require Import Model.',
+    'From FV.C01 Require Import Str Dec.', 'From FV.C01 Require Model.',
+    'From FV.C03 Require Import Model.',
     'Open Scope string_scope.', 'Set Printing Width 100000.', 'Set Printing Depth 100000.',
-    'Definition dq s := match parse_dec_free s with Some d => d | None => dec_zero end.', ''])
+    'Definition dq s := match parse_dec_free s with Some d => d | None => dec_zero end.',
+    '(* node groups come from the C01 model of the .msh reader *)',
+    'Definition read_both (msh cnt : list string) : list string :=',
+    '  match FV.C01.Model.read_ngroups msh with',
+    '  | Ok ngs => show_rcnt (read_cnt ngs cnt) | Err _ => ["ERROR"] end.',
+    'Definition show_ng (msh : list string) : list string :=',
+    '  FV.C01.Model.show_groups (FV.C01.Model.read_ngroups msh).', ''])
 NAN = float('nan')
 
 
@@ -193,6 +200,9 @@ def gen_group_case(rng, base_msh_lines, node_ids, cid):
         msh.append(f'!NGROUP, NGRP={name}')
         if rng.random() < 0.3 and len(ids) % 2 == 0:
             msh += [f'{ids[k]},{ids[k + 1]}' for k in range(0, len(ids), 2)]
+        elif rng.random() < 0.3 and len(ids) >= 2:
+            cut = rng.randint(1, len(ids) - 1)      # the same group in two blocks
+            msh += [str(i) for i in ids[:cut]] + [f'!NGROUP, NGRP={name}'] + [str(i) for i in ids[cut:]]
         else:
             msh += [str(i) for i in ids]
     msh.append('!END')
@@ -292,8 +302,8 @@ def main(ctx):
     ctx.trusted += [
         'translator translate/c01_tables.py (ignore pattern, digits of the default formats)',
         'harness glue: file <-> lines, float -> k-digit decimal (Python decimal, exact), dump of '
-        'constraints/settings read back; node groups read by femio are compared with the ones '
-        'handed to the model',
+        'constraints/settings/node groups read back; the node groups the .cnt model uses come from '
+        'the C01 model of the .msh reader (Model.read_ngroups, compared with femio\'s node_groups)',
         'libc/NumPy printf/strtod',
     ]
     ctx.assumptions += [
@@ -366,8 +376,8 @@ def main(ctx):
             r['cnt_lines'] = split_lines(r['cnt'])
             text_items.append((i, f'lines_eqb (show_lines (write_cnt {coq_cnt(m)})) '
                                   f'{cm.coq_lines(r["cnt_lines"])}'))
-            read_items.append((i, f'lines_eqb (show_rcnt (read_cnt {coq_ngs(all_ngs)} '
-                                  f'{cm.coq_lines(r["cnt_lines"])})) {cm.coq_lines(show_impl(r))}'))
+            read_items.append((i, f'lines_eqb (read_both {cm.coq_lines(split_lines(r["msh"]))} '
+                                  f'{cm.coq_lines(r["cnt_lines"])}) {cm.coq_lines(show_impl(r))}'))
         else:
             text_items.append((i, f'lines_eqb (show_lines (write_cnt {coq_cnt(m)})) ["ERROR"]'))
     gidx = {}
@@ -376,8 +386,14 @@ def main(ctx):
             idx = 100000 + 2 * g['id'] + t
             gidx[idx] = (g, tag)
             r = res2[f'{g["id"]}:{tag}']
-            read_items.append((idx, f'lines_eqb (show_rcnt (read_cnt {coq_ngs(g["ngs"])} '
-                                    f'{cm.coq_lines(g[tag])})) {cm.coq_lines(show_impl(r))}'))
+            read_items.append((idx, f'lines_eqb (read_both {cm.coq_lines(g["msh"])} '
+                                    f'{cm.coq_lines(g[tag])}) {cm.coq_lines(show_impl(r))}'))
+            if t == 0:
+                ngl = ['ERROR'] if 'read' not in r else \
+                    [x for k, v in r['read']['node_groups']
+                     for x in ('GROUP ' + k, ','.join(str(i) for i in v))]
+                read_items.append((200000 + g['id'], f'lines_eqb (show_ng {cm.coq_lines(g["msh"])}) '
+                                                     f'{cm.coq_lines(ngl)}'))
     bad_text = bad_read = None
     if model_ok:
         t0 = time.time()
@@ -394,7 +410,7 @@ def main(ctx):
     ng_bad = []
     for g in gcases:
         r = res2[f'{g["id"]}:cnt_group']
-        if 'read' in r and [[k, v] for k, v in r['read']['node_groups']] != g['ngs']:
+        if 'read' in r and dict((k, v) for k, v in r['read']['node_groups']) != dict((k, v) for k, v in g['ngs']):
             ng_bad.append(g['id'])
 
     # ------------------------------------------------------------ property oracle on the implementation
@@ -479,18 +495,24 @@ def main(ctx):
                           what='the written .cnt differs from the model')
     if bad_read:
         for idx in bad_read[:3]:
-            if idx >= 100000:
+            if idx >= 200000:
+                g = gcases[idx - 200000]
+                case = {'msh': g['msh']}
+                impl = res2[f'{g["id"]}:cnt_group'].get('read', {}).get('node_groups')
+                model = coq_show(ctx, 'Explain', f'show_ng {cm.coq_lines(g["msh"])}')
+                side = 'node_groups'
+            elif idx >= 100000:
                 g, tag = gidx[idx]
                 case = {'msh': g['msh'], 'cnt': g[tag], 'ngs': g['ngs']}
                 impl = show_impl(res2[f'{g["id"]}:{tag}'])
-                model = coq_show(ctx, 'Explain', f'show_rcnt (read_cnt {coq_ngs(g["ngs"])} {cm.coq_lines(g[tag])})')
+                model = coq_show(ctx, 'Explain', f'read_both {cm.coq_lines(g["msh"])} {cm.coq_lines(g[tag])}')
                 side = 'read:' + tag
             else:
                 case = {'mesh': cases[idx], 'cnt': res1[idx]['cnt_lines']}
                 impl = show_impl(res1[idx])
                 model = coq_show(ctx, 'Explain',
-                                 f'show_rcnt (read_cnt {coq_ngs([["ALL", cases[idx]["node_ids"]]])} '
-                                 f'{cm.coq_lines(res1[idx]["cnt_lines"])})')
+                                 f'read_both {cm.coq_lines(split_lines(res1[idx]["msh"]))} '
+                                 f'{cm.coq_lines(res1[idx]["cnt_lines"])}')
                 side = 'read:written'
             ctx.violation('correspondence', case, {'model_read': model}, {'femio_read': impl},
                           'correspondence C03 read: femio read_files = Model.read_cnt',
